@@ -55,6 +55,24 @@ func genC19(t *rapid.T) *C19Case {
 		w.ANPs = nil
 		c.Single = true
 	}
+	// other kinds of resources around the conflict: Services with selectors (in the namespaces of the world and in one
+	// that holds nothing else), an Ingress - they make the analysis take other paths before it meets the conflict
+	if rapid.IntRange(0, 2).Draw(t, "withsvc") == 0 {
+		nsv := rapid.IntRange(1, 3).Draw(t, "nsvc19")
+		for i := 0; i < nsv; i++ {
+			l := fmt.Sprintf("svc19_%d", i)
+			cand := []string{"empty-ns"}
+			for _, n := range w.Namespaces {
+				cand = append(cand, n.Name)
+			}
+			sv := Svc{Ns: rapid.SampledFrom(cand).Draw(t, l+"ns"), Name: l, Selector: map[string]string{"app": rapid.SampledFrom([]string{"x1", "x2", "web"}).Draw(t, l+"sel")},
+				Ports: []SvcPort{{Port: 80, TargetNum: 80}}}
+			w.Services = append(w.Services, sv)
+			if rapid.Bool().Draw(t, l+"ing") {
+				w.Ingresses = append(w.Ingresses, Ing{Ns: sv.Ns, Name: "ing" + l, Default: &Backend{Svc: sv.Name, PortNum: 80}})
+			}
+		}
+	}
 	c.NANP = len(w.ANPs)
 	c.Clean = w.YAML()
 	var docs []string
@@ -136,7 +154,7 @@ func genC19(t *rapid.T) *C19Case {
 		}
 		da := workloadDocs(&World{}, &a)[0]
 		db := workloadDocs(&World{}, &b)[0]
-		yb := strings.Replace(docYAML(db), "name: own-x0z", "name: own-x1z", 1)
+		yb := strings.Replace(docYAML(db), "name: "+ownedPodName(&b, 0), "name: "+ownedPodName(&b, 1), 1)
 		inject = []string{docYAML(da), yb}
 		c.Names = []string{"own"}
 	}
